@@ -669,3 +669,55 @@ def r20_3_allocation(ctx: Ctx) -> RuleResult:
                 rr.inst()
                 rr.fail(f.qual, f"allocation sized by a run-time count before any input is consumed: {bad[:80]}", ctx.loc(f, n))
     return rr
+
+
+@rule("C20")
+def r20_4_handlers_and_closed_streams(ctx: Ctx) -> RuleResult:
+    """(a) A stream opened by `with ... as s:` is closed when the block is left; any later use of `s` (in an `except` handler that
+    builds a message, after the block) raises ValueError on the closed file - an exception that is not the documented one and that
+    replaces the error being reported.  (b) The handlers that normalise decoding failures into InvalidPyodaDataError must themselves
+    be free of raising operations: inside such a handler only the error's constructor, the caught exception and plain names may
+    be used."""
+    rr = RuleResult("R20.4", "decoding code never touches a with-managed stream after its block, and the handlers that convert failures to the invalid-data error do nothing that can raise", min_instances=3)
+    region = _decode_region(ctx)
+    for f in sorted(region, key=lambda x: x.qual):
+        if isinstance(f.node, ast.Lambda):
+            continue
+        for w in own_nodes(f.node):
+            if isinstance(w, ast.With):
+                for it in w.items:
+                    if isinstance(it.optional_vars, ast.Name):
+                        v = it.optional_vars.id
+                        rr.inst()
+                        inside = {id(x) for x in ast.walk(w)}
+                        # uses that textually follow the with statement, or sit in handlers of a try that encloses it
+                        late = [n for n in own_nodes(f.node) if isinstance(n, ast.Name) and n.id == v and isinstance(n.ctx, ast.Load) and id(n) not in inside
+                                and (n.lineno, n.col_offset) > (w.lineno, w.col_offset)]
+                        rebound = any(isinstance(n, ast.Name) and n.id == v and isinstance(n.ctx, ast.Store) and id(n) not in inside and (n.lineno, n.col_offset) > (w.end_lineno or w.lineno, 0) for n in own_nodes(f.node))
+                        if late and not rebound:
+                            rr.fail(f.qual, f"`{v}` is used after the `with` block that closes it (`{unparse(getattr(late[0], '_parent', late[0]))[:60]}`): operations on a closed stream raise ValueError", ctx.loc(f, late[0]))
+                        else:
+                            rr.ok({"fn": f.qual, "managed": v})
+        for t in own_nodes(f.node):
+            if not isinstance(t, ast.Try):
+                continue
+            for h in t.handlers:
+                raises = [s for s in h.body if isinstance(s, ast.Raise) and s.exc is not None and "InvalidPyodaDataError" in unparse(s.exc)]
+                if not raises or h.type is None or "InvalidPyodaDataError" in unparse(h.type):
+                    continue
+                rr.inst()
+                bad = None
+                for s in h.body:
+                    for c in ast.walk(s):
+                        if isinstance(c, ast.Call):
+                            fn_txt = unparse(c.func)
+                            if fn_txt.endswith("InvalidPyodaDataError") or fn_txt in ("str", "repr", "type"):
+                                continue
+                            bad = c
+                        elif isinstance(c, (ast.Subscript, ast.BinOp)) and not isinstance(getattr(c, "ctx", None), ast.Store):
+                            bad = bad or c
+                if bad is not None:
+                    rr.fail(f.qual, f"the handler that converts to InvalidPyodaDataError evaluates `{unparse(bad)[:60]}`, which can itself raise and then replaces the documented error", ctx.loc(f, bad))
+                else:
+                    rr.ok({"fn": f.qual, "handler": unparse(h.type)})
+    return rr
